@@ -4,5 +4,5 @@ Require Import ExtrOcamlBasic.
 From BT Require Import Base.Conv PduBuf.PduBufModel PduBuf.PduBufSpec.
 Extraction Language OCaml.
 Extraction "pdubuf.ml" conv_anchor PduBufModel.init PduBufModel.step PduBufModel.counter_increment
-  PduBufModel.counter_bytes PduBufSpec.minit PduBufSpec.mstep PduBufSpec.tag_in
+  PduBufModel.counter_bytes PduBufSpec.minit PduBufSpec.mstep PduBufSpec.judge
   PduBufSpec.cen_init PduBufSpec.cen_load PduBufSpec.cen_hl PduBufSpec.cen_pdu PduBufSpec.cen_recv.
